@@ -5,6 +5,7 @@ import argparse
 import ast
 import collections
 import io
+import itertools
 import logging
 import os
 import re
@@ -197,8 +198,16 @@ def format_code(
             for node in core.filter_nodes(module.body, ast.ClassDef)
             for funcdef in core.filter_nodes(node.body, fdef_types)
         }
+        class_members = {  # Bare names of methods and attributes of classes in module scope
+            name
+            for node in core.filter_nodes(module.body, ast.ClassDef)
+            for name in itertools.chain(
+                (funcdef.name for funcdef in core.filter_nodes(node.body, fdef_types)),
+                (target.id for target in parsing.iter_assignments(node)),
+            )
+        }
         assignments = {node.id for node in parsing.iter_assignments(module)}
-        preserve = set(preserve) | defs | class_funcs | assignments
+        preserve = set(preserve) | defs | class_funcs | class_members | assignments
 
     if minimum_indent == 0:
         source = fixes.add_missing_imports(source)
